@@ -560,7 +560,18 @@ func (ix *c17xIndex) resolveStatic(fn *c17xFn, call *ast.CallExpr) []*c17xFn {
 // ---------------------------------------------------------------------------------------------
 // client-derived values
 
-var c17xSourceCalls = map[string]bool{"RemoteAddr": true, "GetRegistrationAddress": true, "GetSrcAddr4": true, "GetSrcAddr6": true}
+// File: the *os.File of a connection is named after its endpoints ("tcp4:<local>-><remote>", package net)
+var c17xSourceCalls = map[string]bool{"RemoteAddr": true, "GetRegistrationAddress": true, "GetSrcAddr4": true, "GetSrcAddr6": true, "File": true}
+
+// Reviewed: methods of a client connection (and of values derived from a client address) whose result does
+// not carry the address: I/O calls (byte counts; their errors are judged as error sources), the local side,
+// the descriptor number, predicates.  Every other method of a client connection is a source.
+var c17xCleanMethods = map[string]bool{"Read": true, "Write": true, "Close": true, "CloseRead": true, "CloseWrite": true,
+	"SetDeadline": true, "SetReadDeadline": true, "SetWriteDeadline": true, "SetLinger": true, "SetKeepAlive": true,
+	"SetKeepAlivePeriod": true, "SetNoDelay": true, "SetReadBuffer": true, "SetWriteBuffer": true, "LocalAddr": true,
+	"Fd": true, "Len": true, "IsLoopback": true, "IsUnspecified": true, "IsPrivate": true, "Equal": true, "Network": true}
+
+var c17xClientConnName = regexp.MustCompile(`(?i)client`)
 var c17xSourceFields = map[string]bool{"registrationAddr": true, "RegistrationAddress": true, "SrcAddr4": true, "SrcAddr6": true}
 
 // address-like composite literals keep the taint of their elements; other composites do not (a registration
@@ -576,6 +587,12 @@ func (fn *c17xFn) source(e ast.Expr) string {
 	case *ast.CallExpr:
 		if sel, ok := x.Fun.(*ast.SelectorExpr); ok && c17xSourceCalls[sel.Sel.Name] && len(x.Args) == 0 {
 			return c17xText(fn.fset, e)
+		}
+		// any other method of a value that is a client connection by its name and declared type
+		if sel, ok := x.Fun.(*ast.SelectorExpr); ok && !c17xCleanMethods[sel.Sel.Name] {
+			if id, ok := sel.X.(*ast.Ident); ok && c17xClientConnName.MatchString(id.Name) && strings.Contains(fn.ptypes[id.Name], "Conn") {
+				return c17xText(fn.fset, e)
+			}
 		}
 	case *ast.SelectorExpr:
 		if c17xSourceFields[x.Sel.Name] {
@@ -645,8 +662,8 @@ func (fn *c17xFn) valueTaint(e ast.Expr, depth int) string {
 		if c17xPureNum[ft] {
 			return ""
 		}
-		// a method of a client-derived value (addr.String(), ip.To4(), …)
-		if sel, ok := x.Fun.(*ast.SelectorExpr); ok {
+		// a method of a client-derived value (addr.String(), ip.To4(), fd.Name(), …) unless it is reviewed clean
+		if sel, ok := x.Fun.(*ast.SelectorExpr); ok && !c17xCleanMethods[sel.Sel.Name] {
 			if w := fn.valueTaint(sel.X, depth+1); w != "" {
 				return w
 			}
